@@ -189,16 +189,22 @@ Definition apply_write (st : shared) (w : option (str * option keyid)) : shared 
   | None => st
   end.
 
-Lemma step_state T st o : fst (step T st o) = apply_write st (writes o).
+Lemma step_state T st o : fst (step T st o) = if t_shared T then apply_write st (writes o) else st.
 Proof.
   destruct o as [e alg|e typ m rs sigalg h|e q cert sigkey]; cbn [step writes apply_write].
-  - unfold get_signer. destruct (sh_get st alg); reflexivity.
-  - reflexivity.
-  - unfold verify_redirect_signature. destruct (lookup K_ALG (q_params q)) as [alg|]; [|reflexivity].
-    unfold get_signer. cbn [apply_write]. destruct (sh_get st alg) as [o|] eqn:E; [|reflexivity].
-    destruct (verify_order T (q_params q)); [|reflexivity].
-    destruct (q_sig q) as [[s|[|]]|]; try reflexivity.
-    destruct (sh_get (sh_setkey st alg (or_key sigkey e)) alg); reflexivity.
+  - unfold get_signer. destruct (sh_get st alg); destruct (t_shared T); reflexivity.
+  - now destruct (t_shared T).
+  - unfold verify_redirect_signature. destruct (lookup K_ALG (q_params q)) as [alg|]; [|now destruct (t_shared T)].
+    unfold get_signer. cbn [apply_write]. destruct (sh_get st alg) as [o|] eqn:E; [|now destruct (t_shared T)].
+    destruct (verify_order T (q_params q)); [|now destruct (t_shared T)].
+    destruct (q_sig q) as [[s|[|]]|]; try (now destruct (t_shared T)).
+    cbn [fst]. destruct (sh_get (if t_shared T then sh_setkey st alg (or_key sigkey e) else st) alg); now destruct (t_shared T).
+Qed.
+
+(* fresh signer objects: no step ever changes the table *)
+Lemma exec_fresh T tr : t_shared T = false -> forall st, exec T st tr = st.
+Proof.
+  intros F. induction tr as [|o tr IH]; intros st; [reflexivity|]. cbn [exec]. rewrite step_state, F. apply IH.
 Qed.
 
 (* the last value written for algorithm a by a trace *)
@@ -229,7 +235,7 @@ Proof.
 Qed.
 
 (* the algorithm's entry after any trace: same digest, key = last write (or the initial one) *)
-Lemma exec_get T tr : forall st a,
+Lemma exec_get T tr : t_shared T = true -> forall st a,
   sh_get (exec T st tr) a =
   match sh_get st a with
   | None => None
@@ -237,9 +243,9 @@ Lemma exec_get T tr : forall st a,
                       so_key := match last_write a tr None with Some v => v | None => so_key o end |}
   end.
 Proof.
-  induction tr as [|op tr IH]; intros st a.
+  intros SH. induction tr as [|op tr IH]; intros st a.
   - cbn [exec last_write]. destruct (sh_get st a) as [[d k]|]; reflexivity.
-  - cbn [exec last_write]. rewrite IH, step_state, apply_write_get.
+  - cbn [exec last_write]. rewrite IH, step_state, SH, apply_write_get.
     destruct (sh_get st a) as [o|]; [|reflexivity]. f_equal.
     assert (forall cur k0, match last_write a tr cur with Some v => v | None => k0 end =
                            match last_write a tr None with Some v => v | None => match cur with Some v => v | None => k0 end end) as G.
@@ -280,7 +286,7 @@ Definition signed_query (T : tables) (k : keyid) (digest typ m rs alg : str) : q
   {| q_params := args0 typ m rs alg; q_sig := Some (SigOf (rsa_sign k digest (sign_string T typ m rs alg))) |}.
 
 Lemma sign_produces T st typ m rs alg h o k :
-  msg_typ typ -> mem_str alg (t_allowed T) = true -> sh_get st h = Some o -> so_key o = Some k ->
+  msg_typ typ -> mem_str alg (t_allowed T) = true -> sh_get st (fst h) = Some o -> handle_key T o h = Some k ->
   http_redirect_message T st typ m rs alg (Some h) = Ok (signed_query T k (so_digest o) typ m rs alg).
 Proof.
   intros Ht Ha Hg Hk. unfold http_redirect_message, signer_sign. rewrite Ha, Hg, Hk.
@@ -290,14 +296,14 @@ Qed.
 (* whatever is returned as a signed query was signed with the key stored for the handle at that moment *)
 Lemma sign_used_key T st typ m rs alg h q :
   http_redirect_message T st typ m rs alg (Some h) = Ok q ->
-  exists o, sh_get st h = Some o /\ used_key (Ok q) = so_key o /\ so_key o <> None.
+  exists o, sh_get st (fst h) = Some o /\ used_key (Ok q) = handle_key T o h /\ handle_key T o h <> None.
 Proof.
   unfold http_redirect_message, signer_sign.
   destruct (str_eqb typ K_REQ || str_eqb typ K_RESP || str_eqb typ K_ART); [|discriminate].
   destruct (mem_str alg (t_allowed T)); [|discriminate].
   destruct (str_eqb typ K_REQ || str_eqb typ K_RESP); [|discriminate].
-  destruct (sh_get st h) as [o|]; [|discriminate]. destruct (so_key o) as [k|] eqn:E; [|discriminate].
-  cbn [bind]. intros H. injection H as <-. exists o. cbn. rewrite E. repeat split; discriminate.
+  destruct (sh_get st (fst h)) as [o|]; [|discriminate]. destruct (handle_key T o h) as [k|] eqn:E; [|discriminate].
+  cbn [bind]. intros H. injection H as <-. exists o. cbn [used_key q_sig sg_key rsa_sign]. rewrite E. repeat split; discriminate.
 Qed.
 
 Lemma lookup_args0 typ m rs alg : msg_typ typ ->
@@ -313,6 +319,17 @@ Qed.
 (* ------------------------------------------------------------------ *)
 (* E. verifying                                                       *)
 (* ------------------------------------------------------------------ *)
+(* get_signer on a supported algorithm: the handle's effective key is the requested one, the digest is the entry's *)
+Lemma get_signer_entry T st e alg sk o : sh_get st alg = Some o ->
+  exists st' o', get_signer T st e alg sk = (st', Some (alg, or_key sk e)) /\
+                 sh_get st' alg = Some o' /\ so_digest o' = so_digest o /\
+                 handle_key T o' (alg, or_key sk e) = or_key sk e.
+Proof.
+  intros Hg. unfold get_signer, handle_key. rewrite Hg. destruct (t_shared T).
+  - eexists. eexists. split; [reflexivity|]. rewrite (sh_get_setkey_same st alg _ o Hg). repeat split.
+  - exists st, o. repeat split. exact Hg.
+Qed.
+
 (* what a successful verification under an explicit certificate establishes *)
 Lemma verify_true_inv T st e q c sk :
   verifies (verify_redirect_signature T st e q (Some c) sk) = true ->
@@ -323,10 +340,11 @@ Lemma verify_true_inv T st e q c sk :
 Proof.
   unfold verifies, verify_redirect_signature.
   destruct (lookup K_ALG (q_params q)) as [alg|]; [|discriminate].
-  unfold get_signer. destruct (sh_get st alg) as [o|] eqn:Eg; [|discriminate].
+  destruct (sh_get st alg) as [o|] eqn:Eg; [|unfold get_signer; rewrite Eg; discriminate].
+  destruct (get_signer_entry T st e alg sk o Eg) as (st' & o' & -> & Eg' & Ed & _).
   destruct (verify_order T (q_params q)) as [order|]; [|discriminate].
   destruct (q_sig q) as [[s|[|]]|]; try discriminate.
-  rewrite (sh_get_setkey_same st alg _ o Eg). cbn [snd or_key so_key so_digest].
+  cbn [fst]. rewrite Eg'. cbn [snd or_key]. rewrite Ed.
   destruct (rsa_verify c (so_digest o) (verify_string T order (q_params q)) s) eqn:V; [|discriminate].
   intros _. unfold rsa_verify in V. apply andb_true_iff in V as [V V3]. apply andb_true_iff in V as [V1 V2].
   apply N.eqb_eq in V1. apply str_eqb_eq in V2, V3.
@@ -349,7 +367,7 @@ Lemma verify_needs_signature T st e q cert sk :
 Proof.
   unfold verifies, verify_redirect_signature. intros H.
   destruct (lookup K_ALG (q_params q)) as [alg|]; [|reflexivity].
-  destruct (get_signer st e alg sk) as [st' [h|]]; [|reflexivity].
+  destruct (get_signer T st e alg sk) as [st' [h|]]; [|reflexivity].
   destruct (verify_order T (q_params q)); [|reflexivity].
   destruct (q_sig q) as [[s|[|]]|]; try reflexivity. now destruct (H s).
 Qed.
@@ -427,12 +445,12 @@ Section WithTables.
     destruct (supported_facts alg Hal) as (_ & _ & Hnt & _).
     destruct tables_facts as (E1 & E2 & _).
     unfold verifies, verify_redirect_signature, signed_query. cbn [q_params q_sig].
-    rewrite L3. unfold get_signer. rewrite Hg.
+    rewrite L3. destruct (get_signer_entry T stv e alg sk ov Hg) as (st' & o' & -> & Eg' & Ed & _).
     assert (verify_order T (args0 typ m rs alg) = Some (sign_order T typ)) as ->.
     { unfold verify_order, sign_order. rewrite L4, L5. destruct Ht as [-> | ->].
       - now rewrite str_eqb_refl, E1.
       - replace (str_eqb K_RESP K_REQ) with false by reflexivity. now rewrite str_eqb_refl, E2. }
-    rewrite (sh_get_setkey_same stv alg _ ov Hg). cbn [snd or_key so_key so_digest].
+    cbn [fst]. rewrite Eg'. cbn [snd or_key]. rewrite Ed.
     unfold rsa_verify, rsa_sign. cbn [sg_key sg_digest sg_msg]. rewrite N.eqb_refl, str_eqb_refl. cbn [andb].
     assert (verify_string T (sign_order T typ) (args0 typ m rs alg) = sign_string T typ m rs alg) as ->; [|now rewrite str_eqb_refl].
     unfold verify_string, sign_string. destruct Henc as [->|[Hm Hr]]; [reflexivity|].
@@ -483,23 +501,23 @@ End WithTables.
 (* F. schedules                                                       *)
 (* ------------------------------------------------------------------ *)
 (* exact characterisation: a Sign step uses the key LAST STORED for its handle's algorithm by any entity *)
-Lemma sign_uses_last_writer T st tr e typ m rs sigalg h q :
+Lemma sign_uses_last_writer T st tr e typ m rs sigalg h q : t_shared T = true ->
   snd (step T (exec T st tr) (OSign e typ m rs sigalg (Some h))) = OutSigned (Ok q) ->
-  exists o, sh_get st h = Some o /\
-            used_key (Ok q) = match last_write h tr None with Some v => v | None => so_key o end.
+  exists o, sh_get st (fst h) = Some o /\
+            used_key (Ok q) = match last_write (fst h) tr None with Some v => v | None => so_key o end.
 Proof.
-  cbn [step snd]. intros H. injection H as H. apply sign_used_key in H as (o' & Hg & Hu & _).
-  rewrite exec_get in Hg. destruct (sh_get st h) as [o|]; [|discriminate]. injection Hg as <-.
-  exists o. split; [reflexivity|]. now rewrite Hu.
+  intros SH. cbn [step snd]. intros H. injection H as H. apply sign_used_key in H as (o' & Hg & Hu & _).
+  rewrite (exec_get T tr SH) in Hg. destruct (sh_get st (fst h)) as [o|]; [|discriminate]. injection Hg as <-.
+  exists o. split; [reflexivity|]. rewrite Hu. unfold handle_key. now rewrite SH.
 Qed.
 
 (* own key, provided no step between obtaining the handle and signing stores another key for that algorithm *)
-Lemma own_key_partial T st pre e a mid typ m rs sigalg q :
+Lemma own_key_partial T st pre e a k0 mid typ m rs sigalg q : t_shared T = true ->
   Forall (keeps a e) mid ->
-  snd (step T (exec T st (pre ++ OGet e a :: mid)) (OSign e typ m rs sigalg (Some a))) = OutSigned (Ok q) ->
+  snd (step T (exec T st (pre ++ OGet e a :: mid)) (OSign e typ m rs sigalg (Some (a, k0)))) = OutSigned (Ok q) ->
   used_key (Ok q) = e.
 Proof.
-  intros Hmid H. apply sign_uses_last_writer in H as (o & Hg & ->).
+  intros SH Hmid H. apply (sign_uses_last_writer T _ _ _ _ _ _ _ _ _ SH) in H as (o & Hg & ->). cbn [fst].
   assert (forall tr1 tr2 cur, last_write a (tr1 ++ tr2) cur = last_write a tr2 (last_write a tr1 cur)) as Happ.
   { induction tr1 as [|x tr1 IH]; intros tr2 cur; [reflexivity|]. cbn [app last_write]. apply IH. }
   rewrite Happ. cbn [last_write writes]. rewrite str_eqb_refl.
@@ -507,4 +525,29 @@ Proof.
   - (* cannot be None: it started from Some e *)
     exfalso. now apply (last_write_some a mid e).
   - reflexivity.
+Qed.
+
+(* fresh signer objects: the handle an entity obtained signs with that entity's key, in ANY state, so whatever
+   anybody does in between *)
+Lemma own_key_fresh T st0 e a h : t_shared T = false ->
+  snd (step T st0 (OGet e a)) = OutHandle (Some h) ->
+  forall st typ m rs sigalg q,
+    snd (step T st (OSign e typ m rs sigalg (Some h))) = OutSigned (Ok q) -> used_key (Ok q) = e.
+Proof.
+  intros F Hget st typ m rs sigalg q H. cbn [step snd] in *.
+  unfold get_signer in Hget. destruct (sh_get st0 a); cbn [snd] in Hget; [|discriminate].
+  injection Hget as <-. injection H as H. apply sign_used_key in H as (o & _ & -> & _).
+  unfold handle_key. now rewrite F.
+Qed.
+
+Lemma get_handle_shape T st e a h : snd (step T st (OGet e a)) = OutHandle (Some h) -> h = (a, e).
+Proof.
+  cbn [step]. unfold get_signer. destruct (sh_get st a); cbn [snd]; [|discriminate]. intros H. now injection H as <-.
+Qed.
+
+(* no step adds or removes an algorithm *)
+Lemma exec_domain T tr : forall st a, sh_get (exec T st tr) a = None <-> sh_get st a = None.
+Proof.
+  induction tr as [|o tr IH]; intros st a; [reflexivity|]. cbn [exec]. rewrite IH, step_state.
+  destruct (t_shared T); [|reflexivity]. rewrite apply_write_get. destruct (sh_get st a); split; congruence.
 Qed.
